@@ -86,7 +86,7 @@ func normalExpect(st ReqStep, reg RegSpec) Expect {
 			return Expect{Codes: notFoundCodes}
 		}
 		switch ts.Outcome {
-		case OutGoErr:
+		case OutGoErr, OutCtxDeadline, OutCtxCanceled:
 			return Expect{Codes: []int{-32603}, MsgContains: ts.ErrMsg}
 		case OutIsError:
 			return Expect{AllowResult: true, ResultKind: "result:tools/call", IsErrorFlag: 1}
